@@ -25,7 +25,7 @@ typedef struct step {
 static int nctx;                 // including index 0 = the driving thread's own context
 static size_t req_size[MAXCTX];
 static step_t steps[MAXSTEPS + 1];
-static int nsteps, phase2_at = -1;
+static int nsteps, phase2_at = -1, dirty_byte;
 static volatile int step_idx, phase_end;
 
 static fiber_context_t ctx[MAXCTX];
@@ -222,6 +222,9 @@ int main(int argc, char** argv) {
       if (i > 0 && i < MAXCTX) req_size[i] = b;
     } else if (!strcmp(w, "phase2")) {
       if (fscanf(f, "%d", &phase2_at) != 1) return 2;
+    } else if (!strcmp(w, "dirty")) {
+      // the fiber_context_t objects live in memory that is not zero (stack slot, recycled heap chunk, reused object)
+      if (fscanf(f, "%d", &dirty_byte) != 1) return 2;
     } else if (!strcmp(w, "deep")) {
       int i, d;
       if (fscanf(f, "%d %d", &i, &d) != 2) return 2;
@@ -234,6 +237,10 @@ int main(int argc, char** argv) {
   }
   fclose(f);
   if (nctx < 1 || nctx > MAXCTX) return 2;
+  if (dirty_byte) {
+    memset(ctx, dirty_byte, sizeof ctx);
+    memset(main_ctx, dirty_byte, sizeof main_ctx);
+  }
   for (int i = 1; i < nctx; i++) {
     if (fiber_context_init(&ctx[i], req_size[i], &ctx_entry_stub, (void*)(intptr_t)i) != FIBER_SUCCESS) fail("engine", "fiber_context_init(%zu) failed", req_size[i]);
     created[i] = 1;
